@@ -115,7 +115,8 @@ Fixpoint dispatch_quic (keylog : list secret) (ss : list qsession) (p : packet) 
   | s :: r =>
       let by_cid :=
         if long then (if mem_bytes dcid (qs_client_cids s) || mem_bytes dcid (qs_server_cids s) then Some dcid else None)
-        else find (fun cid => is_prefix cid (slice_from (p_data p) 1)) (scan_order (cid_union (qs_client_cids s) (qs_server_cids s))) in
+        else let from_server := ip_eqb (p_src p) (qs_server_ip s) && (p_sport p =? qs_server_port s) in
+             find (fun cid => is_prefix cid (slice_from (p_data p) 1)) (scan_order (if from_server then qs_client_cids s else qs_server_cids s)) in
       match by_cid with
       | Some cid => do s' <- quic_handle_packet C keylog ftable s p cid ver; Ok (Some (s' :: r))
       | None =>
